@@ -67,10 +67,10 @@ def r1(ctx):
     n = 0
     bad_rep, bad_desc = [], []
     for c in (3, 4, 5, 6):
-        for r in (0, 3, 4, 5):
-            if r > c:
-                continue
-            d = c - (c if r == 0 else r) + 1
+        for r in (0, 3, 4, 5, 8):
+            # r > c: a directory shallower than the root, reachable only through a followed link; it counts as level 1
+            # (a level below 1 would be excluded by `mindepth 1`, which must exclude nothing)
+            d = max(c - (c if r == 0 else r), 0) + 1
             for mn in range(0, 6):
                 for mx in range(0, 6):
                     env = {"c": c, "r": r, "min": mn, "max": mx}
